@@ -126,6 +126,11 @@ func ctxFields(k evKey) []log.Field {
 		// does not recover application panics), the caller recovers - and life goes on
 		return []log.Field{log.String("trace_id", "doomed"), log.Array("boom", panicArr{})}
 	}
+	if k.ctxMode&64 != 0 {
+		// a very long application-defined array: formatting this one event takes as long as
+		// thousands of ordinary log calls of the other tasks
+		return []log.Field{log.String("trace_id", "slowpoke"), log.Array("span", longSpan)}
+	}
 	req := k.task % 2
 	ctxSharedMu.Lock()
 	defer ctxSharedMu.Unlock()
@@ -151,6 +156,14 @@ func (panicArr) EncodeArray(enc log.Encoder) {
 	verifsim.Yield("app.EncodeArray")
 	panic("application encoder failed")
 }
+
+var longSpan = func() spanIDs {
+	a := make(spanIDs, 60000)
+	for i := range a {
+		a[i] = int64(i % 7)
+	}
+	return a
+}()
 
 // spanIDs is an application-defined array value.
 type spanIDs []int64
